@@ -635,6 +635,11 @@ pub fn fmt_events(ev: &[TriggerEvent]) -> String {
         if i > 0 {
             s.push(' ');
         }
+        if i >= 48 {
+            // display only: a batch of a million events must not end up in an evidence or witness file
+            s += &format!("... ({} events in all)", ev.len());
+            break;
+        }
         match e {
             TriggerEvent::PaddingSent { machine } => s += &format!("sp{}", machine.into_raw() as i64),
             TriggerEvent::BlockingBegin { machine } => s += &format!("bb{}", machine.into_raw() as i64),
